@@ -703,10 +703,97 @@ def merge_dict_updates(tree):
     return count[0]
 
 
+def any_to_loop_and_counters_to_enumerate(tree):
+    """N27: `t = any(E for v in IT if C)` with a call in E (an early-exit search with effects) -> `t = False; for v in IT: if C: if E: t = True; break`.
+    N28: `c = 0; for T in IT: BODY; c += 1` (c advanced exactly once at the end of every iteration, no `continue`, c not read after the
+    loop) -> `for c, T in enumerate(IT): BODY`."""
+    count = [0]
+
+    def has(stmts, typ, stop=(ast.FunctionDef, ast.AsyncFunctionDef, ast.ClassDef, ast.Lambda, ast.For, ast.While)):
+        st = list(stmts)
+        while st:
+            n = st.pop()
+            if isinstance(n, typ):
+                return True
+            for ch in ast.iter_child_nodes(n):
+                if not isinstance(ch, stop):
+                    st.append(ch)
+        return False
+
+    def rec(stmts, fdef):
+        out = []
+        i = 0
+        while i < len(stmts):
+            s = stmts[i]
+            for fld in ('body', 'orelse', 'finalbody'):
+                sub = getattr(s, fld, None)
+                if isinstance(sub, list) and sub and isinstance(sub[0], ast.stmt) and not isinstance(s, (ast.FunctionDef, ast.AsyncFunctionDef, ast.ClassDef)):
+                    setattr(s, fld, rec(sub, fdef))
+            if isinstance(s, ast.Try):
+                for h in s.handlers:
+                    h.body = rec(h.body, fdef)
+            # N27
+            if isinstance(s, ast.Assign) and len(s.targets) == 1 and isinstance(s.targets[0], ast.Name) and isinstance(s.value, ast.Call) and isinstance(s.value.func, ast.Name) \
+                    and s.value.func.id == 'any' and len(s.value.args) == 1 and isinstance(s.value.args[0], ast.GeneratorExp) and len(s.value.args[0].generators) == 1 \
+                    and any(isinstance(x, ast.Call) for x in ast.walk(s.value.args[0].elt)):
+                g = s.value.args[0].generators[0]
+                t = s.targets[0].id
+                gnames = {n.id for n in ast.walk(g.target) if isinstance(n, ast.Name)}
+                other = {n.id for n in ast.walk(fdef) if isinstance(n, ast.Name)} if fdef is not None else set()
+                inside = {n.id for n in ast.walk(s) if isinstance(n, ast.Name)}
+                # the comprehension variable becomes a function local: only when that spelling is free (or already that loop variable elsewhere)
+                body = [ast.If(test=s.value.args[0].elt, body=[ast.Assign(targets=[ast.Name(id=t, ctx=ast.Store())], value=ast.Constant(value=True)), ast.Break()], orelse=[])]
+                for c_ in reversed(g.ifs):
+                    body = [ast.If(test=c_, body=body, orelse=[])]
+                new = [ast.Assign(targets=[ast.Name(id=t, ctx=ast.Store())], value=ast.Constant(value=False)),
+                       ast.For(target=g.target, iter=g.iter, body=body, orelse=[])]
+                for n_ in new:
+                    ast.copy_location(n_, s)
+                    ast.fix_missing_locations(n_)
+                out.extend(new)
+                count[0] += 1
+                i += 1
+                continue
+            # N28
+            nxt = stmts[i + 1] if i + 1 < len(stmts) else None
+            if isinstance(s, ast.Assign) and len(s.targets) == 1 and isinstance(s.targets[0], ast.Name) and isinstance(s.value, ast.Constant) and s.value.value == 0 \
+                    and type(s.value.value) is int and isinstance(nxt, ast.For) and not nxt.orelse and len(nxt.body) >= 2:
+                c = s.targets[0].id
+                last = None
+                incs = [k for k, b in enumerate(nxt.body) if isinstance(b, ast.AugAssign) and isinstance(b.target, ast.Name) and b.target.id == c and isinstance(b.op, ast.Add)
+                        and isinstance(b.value, ast.Constant) and b.value.value == 1]
+                k_inc = incs[0] if len(incs) == 1 else None
+                # the counter is advanced once per iteration at the top level of the body and is not read afterwards in the same iteration
+                if k_inc is not None and not has(nxt.body, ast.Continue) \
+                        and not any(isinstance(n, ast.Name) and n.id == c and isinstance(n.ctx, ast.Store) for kk, b in enumerate(nxt.body) if kk != k_inc for n in ast.walk(b)) \
+                        and not any(isinstance(n, ast.Name) and n.id == c for b in nxt.body[k_inc + 1:] for n in ast.walk(b)) \
+                        and not any(isinstance(n, ast.Name) and n.id == c for later in stmts[i + 2:] for n in ast.walk(later)) \
+                        and c not in {n.id for n in ast.walk(nxt.iter) if isinstance(n, ast.Name)}:
+                    rest = nxt.body[:k_inc] + nxt.body[k_inc + 1:]
+                    # nested statements were already processed above for `s`; process the loop body now
+                    rest = rec(rest, fdef)
+                    new = ast.For(target=ast.Tuple(elts=[ast.Name(id=c, ctx=ast.Store()), nxt.target], ctx=ast.Store()),
+                                  iter=ast.Call(func=ast.Name(id='enumerate', ctx=ast.Load()), args=[nxt.iter], keywords=[]), body=rest, orelse=[])
+                    ast.copy_location(new, nxt)
+                    ast.fix_missing_locations(new)
+                    out.append(new)
+                    count[0] += 1
+                    i += 2
+                    continue
+            out.append(s)
+            i += 1
+        return out
+    for node in ast.walk(tree):
+        if isinstance(node, (ast.FunctionDef, ast.AsyncFunctionDef)):
+            node.body = rec(node.body, node)
+    return count[0]
+
+
 def normalize(tree):
     n = Normalizer()
     tree = n.visit(tree)
     n.counts['generators_to_loops'] = generators_to_loops(tree)
+    n.counts['any_counters'] = any_to_loop_and_counters_to_enumerate(tree)
     n.counts['dict_updates_merged'] = merge_dict_updates(tree)
     n.counts['loop_to_comprehension'] = loops_to_comprehensions(tree)
     n.counts['enumerate_dropped'] = drop_unused_enumerate(tree)
